@@ -93,8 +93,16 @@ def _cli_op(rng):
         settings["default_bg"] = rng.choice(("black", "#222", "navy"))
     tree = {}
     for name in rng.sample(("a.css", "b.css", "sub/c.css"), rng.randint(1, 2)):
-        feats = gen.draw_features(rng, ("vars", "var-shared", "var-fallback", "nesting", "important", "keywords", "comments"), 0.35)
-        tree[name] = gen.render(gen.gen_sheet(rng, feats, settings, max_rules=3))
+        feats = gen.draw_features(rng, ("vars", "var-shared", "var-fallback", "var-undefined", "nesting", "important", "keywords", "comments"), 0.35)
+        txt = gen.render(gen.gen_sheet(rng, feats, settings, max_rules=3))
+        # state that could leak from one in-process CLI run into a later one: custom properties defined
+        # in one run's stylesheet and only referenced in another's
+        m = rng.random()
+        if m < 0.3:
+            txt = ":root{--undefined0:%s;--undefined1:%s;--x-shared:%s}\n" % tuple(gen.spell(rng, gen.rand_rgb(rng))[0] for _ in range(3)) + txt
+        elif m < 0.6:
+            txt += "\n.xref%d{color:%s}" % (rng.randrange(50), rng.choice(("var(--x-shared)", "var(--x-shared, #777)", "var(--undefined0, #767676)", "var(--undefined1)")))
+        tree[name] = txt
     return {"op": "cli", "tree": tree, "settings": settings, "order_key": rng.randrange(1 << 20)}
 
 
@@ -106,8 +114,12 @@ def generate(rseed, tier, idx):
         n = g.randint(5, 40 if tier == "thorough" else 16)
         ops = []
         nslots = 0
+        cli_heavy = g.random() < 0.25
         for i in range(n):
             m = g.random()
+            if cli_heavy and g.random() < 0.3:
+                ops.append(_cli_op(g))
+                continue
             if m < 0.55:
                 op = _pure_op(g)
                 if op["op"] == "make":
